@@ -7,44 +7,73 @@
 (* context.  Dev "StaleExpiry" is the code before its fix: commit (c0e0810): the callback did not *)
 (* look at the deadline in force; "NoTimerMutex" the code before 1318a05: two callbacks overlap  *)
 (* and the second takes the first one's brief hold of the call lock for an active call.          *)
+(* Since 939807d a Read/Write call is part of the picture: a call that STARTS after its deadline has passed must fail with a     *)
+(* deadline error and leave the connection usable, whether or not the callback goroutine has run yet.  The call records the       *)
+(* expiry itself (under the timer mutex, before it takes the call lock) and the callback leaves a recorded expiry alone.  Dev     *)
+(* "NoEntryCheck" is the code before that fix: the call looked at the expired flag only -- it could go through, or be taken by    *)
+(* the late callback for a call that was active when the deadline passed.                                                          *)
 EXTENDS Integers, FiniteSets, TLC
 CONSTANTS Dev, MaxSets
 VARIABLES deadline,    \* the deadline in force: "none", "past" or "future"
           armed,       \* the runtime timer is set and has not fired
           inflight,    \* callbacks started by the runtime that have not finished: a set of [id, pc]
-          nextId, expired, cancelled, callLock, sets, tmu
-vars == <<deadline, armed, inflight, nextId, expired, cancelled, callLock, sets, tmu>>
+          nextId, expired, cancelled, callLock, sets, tmu,
+          call,        \* the application's Read/Write: [pc |-> "idle" | "locked" | "done", late |-> it started after the deadline had passed]
+          res,         \* what the call returned: "none", "deadline", "ok", "cancelled"
+          badCancel    \* a callback cancelled the context of a call that had started AFTER the deadline passed
+vars == <<deadline, armed, inflight, nextId, expired, cancelled, callLock, sets, tmu, call, res, badCancel>>
+CALL == -1             \* holder id of the call lock when the application's call holds it
 Init == /\ deadline = "none" /\ armed = FALSE /\ inflight = {} /\ nextId = 1 /\ expired = FALSE /\ cancelled = FALSE
-        /\ callLock = 0 /\ sets = 0 /\ tmu = 0
+        /\ callLock = 0 /\ sets = 0 /\ tmu = 0 /\ call = [pc |-> "idle", late |-> FALSE] /\ res = "none" /\ badCancel = FALSE
 (* SetReadDeadline / SetWriteDeadline (under the timer mutex since the fix; the mutex is free whenever no callback is inside) *)
 SetDeadline(v) == /\ sets < MaxSets /\ sets' = sets + 1
                   /\ ("StaleExpiry" \in Dev \/ tmu = 0)
                   /\ deadline' = v /\ expired' = FALSE /\ armed' = (v # "none")
-                  /\ UNCHANGED <<inflight, nextId, cancelled, callLock, tmu>>
+                  /\ UNCHANGED <<inflight, nextId, cancelled, callLock, tmu, call, res, badCancel>>
 (* the runtime: a timer set for a time that has passed fires and starts the callback *)
 Fire == /\ armed /\ deadline = "past" /\ armed' = FALSE
         /\ inflight' = inflight \cup {[id |-> nextId, pc |-> "start"]} /\ nextId' = nextId + 1
-        /\ UNCHANGED <<deadline, expired, cancelled, callLock, sets, tmu>>
+        /\ UNCHANGED <<deadline, expired, cancelled, callLock, sets, tmu, call, res, badCancel>>
+(* time passes: a deadline that was ahead is now behind *)
+Tick == /\ deadline = "future" /\ deadline' = "past"
+        /\ UNCHANGED <<armed, inflight, nextId, expired, cancelled, callLock, sets, tmu, call, res, badCancel>>
 (* the callback, one step per critical section: timer mutex, staleness check, tryLock of the call lock, mark, release *)
 CbEnter(c) == /\ c.pc = "start" /\ ("NoTimerMutex" \in Dev \/ tmu = 0) /\ tmu' = c.id
               /\ inflight' = (inflight \ {c}) \cup {[c EXCEPT !.pc = "check"]}
-              /\ UNCHANGED <<deadline, armed, nextId, expired, cancelled, callLock, sets>>
+              /\ UNCHANGED <<deadline, armed, nextId, expired, cancelled, callLock, sets, call, res, badCancel>>
 CbCheck(c) == /\ c.pc = "check"
-              /\ IF "StaleExpiry" \notin Dev /\ deadline # "past"
+              /\ IF ("StaleExpiry" \notin Dev /\ deadline # "past") \/ ("NoEntryCheck" \notin Dev /\ expired)   \* stale, or already recorded
                    THEN /\ inflight' = inflight \ {c} /\ tmu' = 0
                         /\ armed' = (deadline = "future")                 \* a deadline still ahead is re-armed
-                        /\ UNCHANGED <<deadline, nextId, expired, cancelled, callLock, sets>>
+                        /\ UNCHANGED <<deadline, nextId, expired, cancelled, callLock, sets, call, res, badCancel>>
                    ELSE /\ IF callLock = 0
-                             THEN callLock' = c.id /\ inflight' = (inflight \ {c}) \cup {[c EXCEPT !.pc = "mark"]} /\ UNCHANGED cancelled
-                             ELSE cancelled' = TRUE /\ inflight' = inflight \ {c} /\ UNCHANGED callLock   \* "an active call": cancel its context
+                             THEN callLock' = c.id /\ inflight' = (inflight \ {c}) \cup {[c EXCEPT !.pc = "mark"]} /\ UNCHANGED <<cancelled, badCancel>>
+                             ELSE /\ cancelled' = TRUE /\ inflight' = inflight \ {c} /\ UNCHANGED callLock   \* "an active call": cancel its context
+                                  /\ badCancel' = (badCancel \/ callLock # CALL \/ call.late)
                         /\ tmu' = (IF callLock = 0 THEN tmu ELSE 0)
-                        /\ UNCHANGED <<deadline, armed, nextId, expired, sets>>
+                        /\ UNCHANGED <<deadline, armed, nextId, expired, sets, call, res>>
 CbMark(c) == /\ c.pc = "mark" /\ expired' = TRUE /\ callLock' = 0 /\ tmu' = 0 /\ inflight' = inflight \ {c}
-             /\ UNCHANGED <<deadline, armed, nextId, cancelled, sets>>
-Next == (\E v \in {"none", "past", "future"} : SetDeadline(v)) \/ Fire
-        \/ \E c \in inflight : CbEnter(c) \/ CbCheck(c) \/ CbMark(c)
+             /\ UNCHANGED <<deadline, armed, nextId, cancelled, sets, call, res, badCancel>>
+(* the application's call.  CallStart: the entry check (since 939807d: under the timer mutex the deadline in force is compared    *)
+(* with the clock and a passed one is recorded -- timer stopped, expired set) and, if the call may proceed, the forced call lock   *)
+CallStart == /\ call.pc = "idle" /\ tmu = 0
+             /\ LET late == deadline = "past"
+                    rec  == "NoEntryCheck" \notin Dev /\ late /\ ~expired IN
+                /\ expired' = (expired \/ rec) /\ armed' = (armed /\ ~rec)
+                /\ IF expired' THEN call' = [pc |-> "done", late |-> late] /\ res' = "deadline" /\ UNCHANGED callLock
+                   ELSE callLock = 0 /\ callLock' = CALL /\ call' = [pc |-> "locked", late |-> late] /\ UNCHANGED res
+             /\ UNCHANGED <<deadline, inflight, nextId, cancelled, sets, tmu, badCancel>>
+(* inside the lock the expired flag is looked at once more (netconn.go read()/Write); then the call does its I/O and returns *)
+CallEnd == /\ call.pc = "locked" /\ callLock' = 0 /\ call' = [call EXCEPT !.pc = "done"]
+           /\ res' = IF expired THEN "deadline" ELSE IF cancelled THEN "cancelled" ELSE "ok"
+           /\ UNCHANGED <<deadline, armed, inflight, nextId, expired, cancelled, sets, tmu, badCancel>>
+Next == (\E v \in {"none", "past", "future"} : SetDeadline(v)) \/ Fire \/ Tick
+        \/ (\E c \in inflight : CbEnter(c) \/ CbCheck(c) \/ CbMark(c)) \/ CallStart \/ CallEnd
 Spec == Init /\ [][Next]_vars
-(* no call is ever active in this model, so: *)
 ExpiredOnlyWhilePast == expired => deadline = "past"          \* "... until the deadline is reset"
-IdleNeverCancels == ~cancelled                                  \* "... leaving the connection usable"
+(* "... leaving the connection usable": a context is cancelled only for a call that was active when its deadline passed -- never *)
+(* for a callback's own brief hold of the call lock, never for a call that started after the deadline had passed                *)
+IdleNeverCancels == ~badCancel
+(* "a deadline that passes while no call is active makes subsequent calls fail with a deadline error" *)
+LateCallFails == (call.pc = "done" /\ call.late /\ sets <= 1) => res = "deadline"
 =============================================================================
